@@ -47,17 +47,28 @@ func aimedAMs(caps amCaps) []*amSchema {
 		fld("listed", true, arr(u(false))), fld("keyed", false, mp(u(false))),
 	)}))
 
-	// 2. nested collections with constrained leaves, named collections referenced optionally
+	// 2. nested collections with constrained leaves (2a) and named collections referenced optionally (2b); kept
+	// apart because 2b trips a known panic of the strict decoder, which would hide everything else in the document
 	out = append(out, mk(
 		&amObject{"Item", st(fld("name", true, strLen(1, 6)), fld("weight", false, bounded(tyw("float", fltW), 0.5, 90.25)))},
-		&amObject{"Items", arr(rf("Item"))},
-		&amObject{"Labels", arr(strLen(1, 5))},
 		&amObject{"Grid", st(
 			fld("cells", true, arr(arr(bounded(tyw("int", intW), 1, 50)))),
 			fld("matrix", false, arr(arr(rf("Item")))),
 			fld("index", true, mp(mp(strLen(1, 4)))),
 			fld("byName", false, mp(rf("Item"))),
 			fld("groups", false, mp(arr(rf("Item")))),
+		)},
+		// containers nested in containers, one member each (a known strict-decoder panic on one shape must not hide the others)
+		&amObject{"NestA", st(fld("groups", true, mp(arr(rf("Item")))))},
+		&amObject{"NestB", st(fld("lists", true, mp(arr(strLen(1, 4)))))},
+		&amObject{"NestC", st(fld("rows", true, arr(mp(strLen(1, 4)))))},
+		&amObject{"NestD", st(fld("deep", true, mp(arr(mp(tyw("int", intW))))))},
+	))
+	out = append(out, mk(
+		&amObject{"Item", st(fld("name", true, strLen(1, 6)), fld("weight", false, bounded(tyw("float", fltW), 0.5, 90.25)))},
+		&amObject{"Items", arr(rf("Item"))},
+		&amObject{"Labels", arr(strLen(1, 5))},
+		&amObject{"Shelf", st(
 			fld("items", false, rf("Items")),
 			fld("labels", false, rf("Labels")),
 			fld("mustItems", true, rf("Items")),
